@@ -414,7 +414,7 @@ func (x *gen) randomWalk(keys []int, steps int) []string {
 }
 
 func main() {
-	tr.Main("C03: every tree shape with up to 4 (quick) / 5 (thorough) nodes x every start (each key, absent keys, Root, nil, empty) x every sequence of up to 2 (3) of the seven moves, with a clone taken first and re-read after every move; trees built by Add/Replace/Remove/Clear/New histories (ascending and descending vines, zig-zags, churn with delete-side rebuilds, bulk New, random mixes) at β in {0,1,250,500,999,1000,random} under natural, reversed and modular comparators, and from each of them random walks over all moves, re-anchoring, clones in up to 4 registers, Inorder (full and stopped early) and full Next/Prev sweeps from every key. The real shape and every cursor's real path are read from the node pointers by a hook. A case is non-trivial when the tree has at least two nodes and at least one cursor operation; distinct = distinct input lines.",
+	tr.Main("C03: every tree shape with up to 4 (quick) / 5 (thorough) nodes x every start (each key, absent keys, Root, nil, empty) x every sequence of up to 2 (3) of the seven moves, with a clone taken first and re-read after every move; trees built by Add/Replace/Remove/Clear/New histories (ascending and descending vines, zig-zags, churn with delete-side rebuilds, bulk New, random mixes) at β in {0,1,250,500,999,1000,random} under natural, reversed and modular comparators, and from each of them random walks (from random keys and, for trees up to 16 keys, from every key) over all moves, re-anchoring, clones in up to 4 registers, Inorder (full and stopped early) and full Next/Prev sweeps from every key. The real shape and every cursor's real path are read from the node pointers by a hook. A case is non-trivial when the tree has at least two nodes and at least one cursor operation; distinct = distinct input lines.",
 		exec, func(g *tr.G) {
 			x := &gen{g}
 			r := g.R
@@ -519,9 +519,16 @@ func main() {
 					ops = append(ops, "i"+bb, string(moves[r.Intn(len(moves))])+bb, "u"+bb, "r"+bb, "i"+a)
 					x.emit(cmps, b, shape, ops, append(tags, "clone-then-move")...)
 				}
-				// random walks
+				// random walks: from random keys, and from every key of the smaller trees
 				for j := 0; j < 6; j++ {
 					x.emit(cmps, b, shape, x.randomWalk(keys, 10+r.Intn(30)), append(tags, "random-walk")...)
+				}
+				if len(keys) <= 16 {
+					for _, k := range keys {
+						ops := x.randomWalk(keys, 8+r.Intn(10))
+						ops[0] = "K0=" + strconv.Itoa(k)
+						x.emit(cmps, b, shape, ops, append(tags, "random-walk-from-every-key")...)
+					}
 				}
 			}
 			// 3. long vines and zig-zags at β=1000 (depth = size), few but deep
